@@ -338,6 +338,10 @@ func (c *Ctx) checkInvs(st *State, id string, ls *LoopSpec, pos token.Pos, extra
 	for i, inv := range ls.Invariants {
 		t, err := env.trBool(inv.Expr)
 		if err != nil {
+			if inv.Optional && strings.Contains(err.Error(), "unknown identifier") {
+				c.note(fmt.Sprintf("optional invariant %d of loop %s dropped: %v", i+1, id, err))
+				continue
+			}
 			c.abort("loop %s invariant %d: %v", id, i+1, err)
 			return
 		}
